@@ -516,8 +516,12 @@ public:
 
         for (auto& elem : m_reference_vertex_map) {
             d1::reference_vertex*& node = elem.second;
-            node->~reference_vertex();
-            cache_aligned_deallocate(node);
+            // A task created by this thread (e.g. a deferred task_handle, or a task still waiting in a pool)
+            // may outlive the thread and releases the vertex when it is destroyed: such a vertex is left alive.
+            if (node->get_num_child() == 0) {
+                node->~reference_vertex();
+                cache_aligned_deallocate(node);
+            }
             poison_pointer(node);
         }
 
